@@ -144,8 +144,6 @@ known_candidate(const std::string& key, const std::string& text)
 static const char* K1 = "values:stir-round-returns-int32:quotient-beyond-2^31-for-uint-long-ulong-output";
 static const char* K2 = "values:double-output-with-automatic-scale-factor:scale-underflows-float-and-zeros-are-written";
 static const char* K3 = "values:unsigned-output-of-nonpositive-image-with-automatic-scale:write_data-fails-but-write_to_file-reports-success";
-static const char* K4 = "exam:energy-window-with-lower-threshold-0-is-written-but-not-read-back";
-static const char* K5 = "exam:patient-rotation-left-or-right-is-written-as-other";
 static const char* K6 = "values:NM-modality-multi-dataset-interfile:data-offset-in-bytes-not-parsed-so-every-dataset-reads-the-first";
 
 static const char* K6_TEXT = "write_basic_interfile_image_header writes '!type of data := Tomographic' for modality NM, for which "
@@ -434,7 +432,7 @@ make_image(const Geo& g, const shared_ptr<ExamInfo>& ex)
 
 // value distributions
 static const char* KIND_NAMES[] = { "mixed", "positive", "all-zero", "all-negative", "single-voxel", "small-integers",
-                                    "huge",  "tiny",     "nonpositive-max0", "constant" };
+                                    "huge",  "tiny",     "nonpositive-max0", "constant", "half-steps" };
 static void
 fill_values(vh::Rng& rng, int kind, Array<3, float>& im)
 {
@@ -476,6 +474,9 @@ fill_values(vh::Rng& rng, int kind, Array<3, float>& im)
         case 8:
           v = (k % 3 == 0) ? 0. : -A * rng.unit();
           break;
+        case 10: // multiples of 1/8: with the scale factor 1/4 every other quotient is an exact tie (k + 1/2)
+          v = 0.125 * rng.range(-40, 40);
+          break;
         default:
           v = cst;
           break;
@@ -493,6 +494,8 @@ gen_scale(vh::Rng& rng, const TypeInfo& t, const Array<3, float>& im, int settin
   double amax = 0;
   for (auto it = im.begin_all(); it != im.end_all(); ++it)
     amax = std::max(amax, std::fabs(static_cast<double>(*it)));
+  if (setting == 4)
+    return 0.25F; // exact power of two (used with the half-steps distribution: exact ties)
   if (setting == 0)
     return 0.F;
   if (!t.integer)
@@ -555,7 +558,8 @@ oracle_geometry(const VoxelsOnCartesianGrid<float>& a, const DiscretisedDensity<
           check(hnum(*h, "matrixsize[" + std::to_string(k) + "]", -1) == amx[d] - amn[d] + 1, "header matrix size differs from the number of voxels");
         }
       const double vb = b.get_grid_spacing()[d];
-      check(std::fabs(vb - va) <= std::fabs(vox_h[d] - va) + 2 * EPS_F * std::fabs(va), "voxel size changed by the round trip");
+      check(std::fabs(vb - va) <= std::min(std::fabs(vox_h[d] - va), EPS_FMT * std::fabs(va)) + 2 * EPS_F * std::fabs(va),
+            "voxel size changed by the round trip");
     }
   // every voxel: physical position before = after
   long bad = 0;
@@ -572,7 +576,11 @@ oracle_geometry(const VoxelsOnCartesianGrid<float>& a, const DiscretisedDensity<
           for (int d = 1; d <= 3; ++d)
             {
               const double va = std::fabs(a.get_grid_spacing()[d]), vb = std::fabs(b.get_grid_spacing()[d]);
-              const double fmt_err = std::fabs(fpo_h[d] - p0[d]) + kk[d] * std::fabs(vox_h[d] - a.get_grid_spacing()[d]);
+              // error of the printed header numbers, but never more than 6-digit formatting allows
+              const double fmt_err
+                  = std::min(std::fabs(fpo_h[d] - p0[d]),
+                             EPS_FMT * std::fabs(static_cast<double>(p0[d])) + 4 * EPS_F * (va * std::abs(amn[d]) + std::fabs(a.get_origin()[d])))
+                    + kk[d] * std::min(std::fabs(vox_h[d] - a.get_grid_spacing()[d]), EPS_FMT * va);
               const double noise = 8 * EPS_F
                                    * (std::fabs(a.get_origin()[d]) + std::fabs(b.get_origin()[d]) + std::fabs(fpo_h[d])
                                       + va * (std::abs(amn[d]) + kk[d]) + vb * (std::abs(bmn[d]) + kk[d]))
@@ -746,32 +754,24 @@ exam_checks(const ExamInfo& a, const ExamInfo& b, bool emit_op)
                        + frames_str(a.time_frame_definitions);
       emit(op, exam_line(b) + " " + frames_str(b.time_frame_definitions));
     }
+  const long fails_before = g_fails;
   check(a.imaging_modality == b.imaging_modality, "imaging modality changed by the round trip");
   check(a.patient_position.get_orientation() == b.patient_position.get_orientation(), "patient orientation changed by the round trip");
-  if (a.patient_position.get_rotation() != b.patient_position.get_rotation())
-    {
-      const PatientPosition::RotationValue r = a.patient_position.get_rotation();
-      if ((r == PatientPosition::left || r == PatientPosition::right) && b.patient_position.get_rotation() == PatientPosition::other_rotation)
-        known_candidate(K5, "write_interfile_patient_position maps PatientPosition::left and ::right to 'patient rotation := other' although the "
-                            "reader knows 'left' and 'right': decubitus patient positions (HFDR, HFDL, FFDR, FFDL) do not survive");
-      else
-        check(false, "patient rotation changed by the round trip");
-    }
-  else
-    check(true, "");
+  // every rotation, including the decubitus positions left / right (repaired in /repo by 697526ee8: a regression is a violation)
+  check(a.patient_position.get_rotation() == b.patient_position.get_rotation(), "patient rotation changed by the round trip");
+  if (a.patient_position.get_rotation() == PatientPosition::left || a.patient_position.get_rotation() == PatientPosition::right)
+    g_cover["exam:rotation-left-or-right"]++;
   if (a.get_calibration_factor() > 0)
     check(close_rel(a.get_calibration_factor(), b.get_calibration_factor(), EPS_FMT + 2 * EPS_F), "calibration factor changed by the round trip");
   else
     check(b.get_calibration_factor() <= 0, "calibration factor appeared from nowhere");
   if (a.get_high_energy_thres() > 0 && a.get_low_energy_thres() >= 0)
-    { // the writer stores the window
-      const bool same = close_rel(a.get_high_energy_thres(), b.get_high_energy_thres(), EPS_FMT + 2 * EPS_F)
-                        && close_rel(a.get_low_energy_thres(), b.get_low_energy_thres(), EPS_FMT + 2 * EPS_F);
-      if (!same && a.get_low_energy_thres() == 0 && b.get_high_energy_thres() <= 0)
-        known_candidate(K4, "write_interfile_energy_windows writes the window when low >= 0 (interfile.cxx:441) but InterfileHeader::post_processing "
-                            "only accepts it when low > 0 (InterfileHeader.cxx:384): a window [0, high] is written and silently dropped on reading");
-      else
-        check(same, "energy window changed by the round trip");
+    { // the writer stores the window, also with lower threshold 0 (reader repaired in /repo by ccc9f5cdc: a regression is a violation)
+      check(close_rel(a.get_high_energy_thres(), b.get_high_energy_thres(), EPS_FMT + 2 * EPS_F)
+                && close_rel(a.get_low_energy_thres(), b.get_low_energy_thres(), EPS_FMT + 2 * EPS_F),
+            "energy window changed by the round trip");
+      if (a.get_low_energy_thres() == 0)
+        g_cover["exam:window-with-lower-threshold-0"]++;
     }
   const TimeFrameDefinitions &fa = a.time_frame_definitions, &fb = b.time_frame_definitions;
   if (fa.get_num_frames() == 0)
@@ -795,6 +795,18 @@ exam_checks(const ExamInfo& a, const ExamInfo& b, bool emit_op)
       if (ra.get_branching_ratio(false) > 0)
         check(close_rel(ra.get_branching_ratio(false), rb.get_branching_ratio(false), EPS_FMT + 2 * EPS_F),
               "radionuclide branching ratio changed by the round trip");
+    }
+  // the library's own comparison must agree when every stored field survived and nothing was unset
+  // (unset fields come back as defaults: default radionuclide for the modality, one empty time frame, ...)
+  const bool all_fields_ok = g_fails == fails_before;
+  const bool everything_set = ra.get_name() != "Unknown" && !ra.get_name().empty() && fa.get_num_frames() > 0
+                              && std::fabs(ra.get_energy(false) - rb.get_energy(false)) <= 0.05
+                              && !(a.get_high_energy_thres() > 0 && a.get_low_energy_thres() < 0)
+                              && !(a.get_high_energy_thres() <= 0 && a.get_low_energy_thres() > 0);
+  if (all_fields_ok && everything_set)
+    {
+      g_cover["exam:operator=="]++;
+      check(a == b, "ExamInfo::operator== says the exam information differs although every field survived");
     }
 }
 
@@ -1359,6 +1371,10 @@ main(int argc, char** argv)
   for (int ti = 0; ti < 10; ++ti)
     for (int kind : { 2, 3, 8, 4 })
       single_case(rng, dir, idx++, ti, true, 0, kind, thorough);
+  // exact ties: values k/8 with scale factor 1/4 -> rounding half away from zero is observable
+  for (int rep = 0; rep < (thorough ? 4 : 1); ++rep)
+    for (int ti = 0; ti < 10; ++ti)
+      single_case(rng, dir, idx++, ti, rep % 2 == 0, 4, 10, thorough);
   // containers
   const int creps = thorough ? 12 : 2;
   for (int rep = 0; rep < creps; ++rep)
